@@ -184,6 +184,9 @@ def native_run(target, inputs, choices):
 
             def nfb(obj, mname, cls=cls):
                 fn = cls.__dict__.get(mname)
+                if isinstance(fn, (str, int, float, tuple, list, dict, frozenset, set)):
+                    import copy as _copy
+                    return _copy.deepcopy(fn)          # a class-level constant: a private copy, as in the symbolic run
                 if fn is None or not callable(getattr(fn, '__func__', fn)):
                     return None
                 if isinstance(fn, staticmethod):
